@@ -305,7 +305,11 @@ def inventory(base):
     return treegen.inventory(base)
 
 
-def canon_temp(p, victims):
+def canon_temp(p, victims, existing=()):
+    """<victim>.<24 alnum> -> <victim>.tmp~ for names that did NOT exist before the run (a pre-existing file with such a name
+    is an ordinary file and keeps its name)"""
+    if p in existing:
+        return p
     m = TEMP_RE.match(p)
     if m and m.group(1) in victims:
         return m.group(1) + b".tmp~"
@@ -610,7 +614,7 @@ def compare_final(queries, inv0, inv1, mstate, victims):
         if e[0] == "l":
             t = e[3] if e[3].startswith(b"/") else os.path.normpath(os.path.join(os.path.dirname(p), e[3]))
             raws.setdefault(os.path.normpath(t), set()).add(e[3])
-    inv1c = {canon_temp(p, victims): e for p, e in inv1.items()}
+    inv1c = {canon_temp(p, victims, inv0): e for p, e in inv1.items()}
     rcls, mcls = {}, {}
     for q, mv in zip(queries, mstate):
         e = inv1c.get(q)
